@@ -49,6 +49,12 @@ def traced(cfg):
     bad = []
     cnt = dict(rows=0, boundaries=0)
     have_blobs = c["mode"] in ("blobs", "blobs2", "blobs3")
+    if isinstance(c.get("pool"), int) and c["pool"] > 1:
+        import functools
+        globals_cr = coherent_rows
+        coherent = functools.partial(globals_cr, recompute=True)
+    else:
+        coherent = coherent_rows
 
     def check_current(where, sm, need_all=True):
         cur = sm.get_current()
@@ -58,7 +64,7 @@ def traced(cfg):
             return      # warm-up: resampling is skipped, current still holds the previous batch
         cnt["boundaries"] += 1
         cnt["rows"] += len(cur["logl"])
-        for key, what in coherent_rows(t, like, cur["u"], cur["x"], cur["logl"], cur["blobs"] if have_blobs else None, where):
+        for key, what in coherent(t, like, cur["u"], cur["x"], cur["logl"], cur["blobs"] if have_blobs else None, where):
             if len(bad) < 20:
                 bad.append((key, what + f" [iter {cur['iter']}, beta {cur['beta']}]"))
 
@@ -92,7 +98,7 @@ def traced(cfg):
                 u, x, l = self.get_history("u", index=n - 1), self.get_history("x", index=n - 1), self.get_history("logl", index=n - 1)
                 b = self.get_history("blobs", index=n - 1) if have_blobs else None
                 cnt["rows"] += len(l)
-                for key, what in coherent_rows(t, like, u, x, l, b, f"history batch {n - 1} at commit"):
+                for key, what in coherent(t, like, u, x, l, b, f"history batch {n - 1} at commit"):
                     if len(bad) < 20:
                         bad.append((key, what))
         hk.wrap(StateManager, "commit_current_to_history", after=after_commit)
@@ -105,7 +111,7 @@ def traced(cfg):
                 it += 1
                 cnt["boundaries"] += 1
                 cnt["rows"] += len(st["logl"])
-                for key, what in coherent_rows(t, like, st["u"], st["x"], st["logl"], st["blobs"] if have_blobs else None, "dict returned by sample()"):
+                for key, what in coherent(t, like, st["u"], st["x"], st["logl"], st["blobs"] if have_blobs else None, "dict returned by sample()"):
                     if len(bad) < 20:
                         bad.append((key, what))
         except Exception as e:
@@ -122,7 +128,7 @@ def traced(cfg):
     for i in range(len(H["logl"])):
         b = H["blobs"][i] if have_blobs and i < len(H["blobs"]) else None
         cnt["rows"] += len(H["logl"][i])
-        for key, what in coherent_rows(t, like, H["u"][i], H["x"][i], H["logl"][i], b, f"history batch {i} after the run"):
+        for key, what in coherent(t, like, H["u"][i], H["x"][i], H["logl"][i], b, f"history batch {i} after the run"):
             if len(bad) < 20:
                 bad.append((key, what))
     # returned posteriors
@@ -132,12 +138,123 @@ def traced(cfg):
         x, w, l = res[:3]
         b = res[3] if (kw.get("return_blobs") and have_blobs) else None
         cnt["rows"] += len(l)
-        for key, what in coherent_rows(t, like, None, x, l, b, f"posterior({kw})"):
+        for key, what in coherent(t, like, None, x, l, b, f"posterior({kw})"):
             if len(bad) < 20:
                 bad.append((key, what))
     if all_zero():
         bad = [(("all-zero-likelihood-batch" if k == "stored-nonfinite-logl" else k), w) for k, w in bad]
     return dict(bad=bad, **cnt, iters=it, sparse=sum(1 for n, k in batches if 0 < n - k <= 2))
+
+
+def traced_reuse(cfg, variant):
+    """A sampler object that has already sampled gets another history loaded (a checkpoint of another run - if possible one
+    with the same number of iterations - or an earlier checkpoint of its own) and goes on.  Every record at every step
+    boundary afterwards, and everything returned, must still be one evaluation of the likelihood: anything the object
+    remembers about the history it held before must have died with it."""
+    import os, shutil
+    from tempest.steps.mutate import Mutator
+    from tempest.steps.resample import Resampler
+    from tempest.state_manager import StateManager
+    from tvf.checks.c08 import tmpdir
+    c = runs.full(cfg)
+    have_blobs = c["mode"] in ("blobs", "blobs2", "blobs3")
+    tmp = tmpdir()
+    bad = []
+    cnt = dict(rows=0, boundaries=0, same_length=0, iters_after=0)
+    try:
+        np.random.seed(c["seed"])
+        sA, t, like, pt = runs.build(dict(c, output_dir=tmp, output_label="a"))
+        sA.run(n_total=c["n_total"], progress=False, save_every=1)
+        files = {}
+        for f in os.listdir(tmp):
+            if f.startswith("a_") and f.endswith(".state") and "final" not in f:
+                files[int(f.split("_")[1].split(".")[0])] = os.path.join(tmp, f)
+        if not files:
+            return dict(bad=[("harness", "no checkpoint written")], **cnt)
+        if variant == "rewind":
+            s = sA
+            for _ in range(2):
+                s.sample()
+            pick = files[sorted(files)[len(files) // 2]]
+        else:
+            np.random.seed(c["seed"] + 1)
+            s, _, _, _ = runs.build(c, like=like)          # the same likelihood object: one evaluation log for both runs
+            s.run(n_total=c["n_total"], progress=False)
+            if variant == "results-first":
+                s.results()
+                s.posterior()
+            TB = s.state.get_history_length()
+            pick = None
+            cands = dict(files)
+            fin = os.path.join(tmp, "a_final.state")
+            if os.path.exists(fin):
+                cands[10 ** 6] = fin
+            lens = {}
+            for k in sorted(cands):
+                probe, _, _, _ = runs.build(c, like=like)
+                probe.load_state(cands[k])
+                lens[k] = probe.state.get_history_length()
+            same = [k for k in lens if lens[k] == TB]
+            if same:
+                pick = cands[same[0]]
+                cnt["same_length"] = 1
+            else:
+                pick = cands[min(lens, key=lambda k: abs(lens[k] - TB))]
+
+        def rows(where, u, x, l, b):
+            cnt["boundaries"] += 1
+            cnt["rows"] += len(l)
+            for key, what in coherent_rows(t, like, u, x, l, b if have_blobs else None, where):
+                if len(bad) < 20:
+                    bad.append((key, f"[{variant}] " + what))
+
+        def check_current(where, sm):
+            if sm is not s.state:
+                return
+            cur = sm.get_current()
+            if cur["u"] is None or cur["logl"] is None:
+                return
+            if float(cur["beta"] or 0.0) == 0.0 and "Resampler" in where:
+                return
+            rows(where, cur["u"], cur["x"], cur["logl"], cur["blobs"])
+
+        def after_commit(ctx, r, self, *a, **k):
+            n = self.get_history_length()
+            if n and self is s.state:
+                cnt["iters_after"] += 1
+                rows(f"history batch {n - 1} at commit (after the reload)", self.get_history("u", index=n - 1), self.get_history("x", index=n - 1),
+                     self.get_history("logl", index=n - 1), self.get_history("blobs", index=n - 1) if have_blobs else None)
+
+        def whole(where):
+            H = runs.history(s)
+            for i in range(len(H["logl"])):
+                b = H["blobs"][i] if have_blobs and i < len(H["blobs"]) else None
+                rows(f"history batch {i} {where}", H["u"][i], H["x"][i], H["logl"][i], b)
+            for kw in (dict(), dict(resample=True), dict(trim_importance_weights=False, return_blobs=True)):
+                np.random.seed(99)
+                res = s.posterior(**kw)
+                x, w, l = res[:3]
+                rows(f"posterior({kw}) {where}", None, x, l, res[3] if (kw.get("return_blobs") and have_blobs) else None)
+            fl = s.state.get_history("logl", flat=True)
+            fx = s.state.get_history("x", flat=True)
+            fu = s.state.get_history("u", flat=True)
+            rows(f"flattened history {where}", fu, fx, fl, s.state.get_history("blobs", flat=True) if have_blobs else None)
+
+        with attach.Hooks() as hk:
+            hk.wrap(Resampler, "run", after=lambda ctx, r, self, w: check_current("after Resampler.run (after the reload)", self.state))
+            hk.wrap(Mutator, "run", after=lambda ctx, r, self, ms: check_current("after Mutator.run (after the reload)", self.state))
+            hk.wrap(StateManager, "commit_current_to_history", after=after_commit)
+            attach.iteration_budget(hk, 400)
+            if variant == "load":
+                s.load_state(pick)
+                whole("right after load_state")
+            s.run(n_total=2 * c["n_total"], progress=False, resume_state_path=pick)
+        whole("after the resumed run")
+    except Exception as e:
+        bad.append(("reuse-run-raises", f"[{variant}] {type(e).__name__}: {e}\n{fmt_exc()[-300:]}"))
+    finally:
+        shutil.rmtree(tmp, ignore_errors=True)
+    return dict(bad=bad, **cnt)
 
 
 def run():
@@ -161,6 +278,11 @@ def run():
         row = dict(target="tailprior", kernel=["tpcn", "rwm"][j % 2], resample=["mult", "syst"][(j // 2) % 2], clustering=False,
                    mode=["vec", "scalar", "blobs", "blobs3"][j % 4], metric="ess", N=48, cluster_every=1)
         tasks.append(("tvf.checks.c07:traced", dict(cfg=to_cfg(row, ck.subseed("tail", j))), None))
+    # likelihood evaluated in worker processes (integer pool): records are judged by re-evaluating the pure likelihood
+    for j in range(ck.pick(2, 6)):
+        row = dict(target=["gauss2", "bimodal", "support"][j % 3], kernel=["tpcn", "rwm"][j % 2], resample=["syst", "mult"][j % 2], clustering=bool(j % 2),
+                   mode="scalar", metric="ess", N=[32, 27][j % 2], cluster_every=1)
+        tasks.append(("tvf.checks.c07:traced", dict(cfg=dict(to_cfg(row, ck.subseed("ipool", j)), pool=[2, 3][j % 2])), None))
     for i, st, val in farm.run(tasks, timeout=900, progress="C07"):
         cfg = tasks[i][1]["cfg"]
         if st == "timeout":
@@ -171,6 +293,8 @@ def run():
             continue
         ck.case(dict(cfg=cfg), nontrivial=val["iters"] > 2)
         ck.event("monitored runs")
+        if isinstance(cfg.get("pool"), int):
+            ck.event("monitored runs whose likelihood is evaluated in worker processes (integer pool)")
         ck.event("step boundaries checked", val["boundaries"])
         ck.event("particle rows looked up in the evaluation log", val["rows"])
         ck.event("warm-up batches with only 1-2 finite-likelihood draws", val.get("sparse", 0))
@@ -180,7 +304,35 @@ def run():
                 continue
             seen.add(key)
             ck.violation(key, what, dict(cfg=cfg))
-    ck.require_events("monitored runs", "step boundaries checked", "particle rows looked up in the evaluation log")
+    # a used sampler object gets another history loaded and continues
+    rt = []
+    variants = ["resume", "results-first", "load", "rewind"]
+    for j in range(ck.pick(8, 48)):
+        row = dict(target=["gauss2", "bimodal", "expface", "gauss4"][j % 4], kernel=["tpcn", "rwm"][j % 2], resample=["mult", "syst"][(j // 2) % 2],
+                   clustering=bool((j // 2) % 2), mode=["vec", "scalar", "blobs", "blobs3", "blobs2"][j % 5], metric=["ess", "vol"][(j // 3) % 2],
+                   N=[32, 48][j % 2], cluster_every=[1, 2, 3][j % 3])
+        rt.append(("tvf.checks.c07:traced_reuse", dict(cfg=to_cfg(row, ck.subseed("reuse", j)), variant=variants[j % 4]), None))
+    for i, st, val in farm.run(rt, timeout=900, progress="C07-reuse"):
+        kw = rt[i][1]
+        if st == "timeout":
+            ck.inconc(f"reuse {kw}: watchdog")
+            continue
+        if st != "ok":
+            ck.violation("run-crashed", f"{kw}: {st} {str(val)[-400:]}", kw)
+            continue
+        ck.case(dict(reuse=kw), nontrivial=val["iters_after"] > 0)
+        ck.event("used sampler objects that had another history loaded and went on")
+        ck.event("... of which the loaded history had as many iterations as the object's own", val["same_length"])
+        ck.event("iterations committed after such a reload", val["iters_after"])
+        ck.event("step boundaries checked", val["boundaries"])
+        ck.event("particle rows looked up in the evaluation log", val["rows"])
+        seen = set()
+        for key, what in val["bad"]:
+            if key not in seen:
+                seen.add(key)
+                ck.violation(key, what, kw)
+    ck.require_events("monitored runs", "step boundaries checked", "particle rows looked up in the evaluation log",
+                      "used sampler objects that had another history loaded and went on", "iterations committed after such a reload")
     return ck.finish(
         rule="pairwise (quick, <= 24 rows) / 3-wise (thorough) covering array over target {interior, bimodal, hard face, periodic, reflective, "
              "zero-likelihood region, mixed periodic+reflective} x kernel x resampler x clustering x vec/scalar/blobs x metric mode x N x "
